@@ -107,7 +107,14 @@ def run_case(ctx, name, params):
                 if "obj" in gates:
                     S.gate("obj_exit")
                 S.note("obj_exit")
-        p1 = hooks.make_problem(n=n, m=m, criteria=crit, fn=fn, cons=cons, bounds=[[-1.0, 1.0]] * n, entry_gate=eg, exit_gate=xg)
+        poison = set()
+
+        def script(call_no, vec, individual):
+            if individual.id in poison:
+                return ValueError("warm-up design whose evaluation aborts the batch")
+            return None
+        p1 = hooks.make_problem(n=n, m=m, criteria=crit, fn=fn, cons=cons, bounds=[[-1.0, 1.0]] * n, entry_gate=eg, exit_gate=xg,
+                                script=script)
         path = os.path.join(core.scratch_dir(), "c07-%d-%d.sqlite" % (os.getpid(), params["seed"] % 10 ** 9))
         pt = Patches()
         proxy = None
@@ -158,6 +165,33 @@ def run_case(ctx, name, params):
                 pt.wrap_attr(SqliteDataStore, "sync_individual", mk_sync)
             a1 = DummyAlgorithm(p1)
             a1.options["max_processes"] = workers
+            if r.random() < 0.35:
+                # an earlier parallel batch on the same algorithm object was aborted by an exception in a worker; its designs
+                # are gone (freed) when the judged batch is built, so nothing of it may influence the judged batch
+                import gc
+                import time as _t
+                warm = [Individual([r.uniform(-1, 1) for _ in range(n)]) for _ in range(r.randint(2, 6))]
+                poison.add(r.choice(warm).id)
+                try:
+                    a1.evaluate(warm)
+                except BaseException:
+                    pass
+                t_end = _t.time() + 3.0
+                while _t.time() < t_end and ((S is not None and S.parked) or any(c.result is None and c.exc is None for c in list(p1.calls))):
+                    _t.sleep(0.002)
+                _t.sleep(0.01)
+                del p1.calls[:]
+                del warm
+                gc.collect()
+                ctx.count("aborted_warmup_batches")
+                if use_db:
+                    try:
+                        cn = sqlproxy.REAL_CONNECT(path)
+                        cn.execute("DELETE FROM individuals")
+                        cn.commit()
+                        cn.close()
+                    except Exception:
+                        pass
             batch = [Individual(list(v)) for v in vecs]
             if name == "lines":
                 inj = sched.YieldInjector(params["seed"], prob=r.choice([0.1, 0.3, 0.6]))
